@@ -16,6 +16,8 @@ GLOBAL_ASSUMPTIONS = [
     "OffsetDateTime::now_utc, the ticker thread and thread::sleep are trusted",
     "std::backtrace::Backtrace::capture is stubbed by Backtrace::disabled (diagnostics only)",
     "core::system_metric::get_total_memory_size is stubbed by an arbitrary value (avoids sysinfo/rayon in the dyn SentinelRule vtable)",
+    "std::sync::Arc::drop_slow is stubbed by a no-op (objects are leaked instead of freed; reference counts still move exactly; "
+    "Drop impls of pointees are not run) and std::sync::Once::call_once by 'run the closure' - in every Kani obligation",
     "Kani 0.68 / CBMC 6.11 / CaDiCaL, Verus 0.2026.09.13 / z3 and rustc are trusted; Kani's memory model of Arc/Mutex/Vec is trusted",
     "machine integers are bit-precise (overflow checked); floats are IEEE-754 bit-precise in CBMC, never treated as reals; "
     "termination is not proved by Kani (loops are closed by unwinding assertions)",
@@ -130,6 +132,7 @@ def decide(prop, tier, only=None, seed=0):
                 meta["injected"] = inject.apply(sc, reg, kobs)
                 kres, kmeta = kani_run.run(sc, kobs)
                 meta["kani"] = {k: v for k, v in kmeta.items() if k != "output"}
+                n_playback = 0
                 for o in kobs:
                     kr = kres[o["name"]]
                     r = {"name": o["name"], "backend": "kani", "harness": kr["harness"], "kind": o.get("kind", "KS"),
@@ -138,7 +141,8 @@ def decide(prop, tier, only=None, seed=0):
                          "covers": "%d/%d" % (kr["covers_satisfied"], kr["covers_total"]), "failed": kr["failed"]}
                     if kr["verdict"] == "refuted":
                         r["verifier_output"] = kr["raw"][-6000:]
-                        test, vals = kani_run.playback(sc, o)
+                        n_playback += 1
+                        test, vals = kani_run.playback(sc, o) if n_playback <= 2 else (None, [])
                         r["playback_test"] = test
                         r["counterexample"] = vals
                     results.append(r)
